@@ -101,6 +101,35 @@ func init() {
 		return nil
 	}
 
+	// math.Inf(sign) with a constant sign: a fresh real number remembered as +infinity / -infinity, of which nothing else is
+	// known; math.Nextafter(x, y): strictly towards y when y is such an infinity (float64 as real numbers: false only for
+	// an infinite or NaN x), otherwise an arbitrary value.
+	externals["math.Inf"] = func(f *Frame, ns *nodeState, x *ssa.Call, fn *ssa.Function, args []Val) []Val {
+		ex := f.ex
+		ex.callSeq["math.Inf"]++
+		r := ex.vc.Declare(fmt.Sprintf("%sinf!%d", f.prefix, ex.callSeq["math.Inf"]), SReal)
+		if k := args[0].T.K; k != nil {
+			if k.Sign() >= 0 {
+				ex.callSeq["math.Inf is "+r.S] = 1
+			} else {
+				ex.callSeq["math.Inf is "+r.S] = -1
+			}
+		}
+		return []Val{{T: r}}
+	}
+	externals["math.Nextafter"] = func(f *Frame, ns *nodeState, x *ssa.Call, fn *ssa.Function, args []Val) []Val {
+		ex := f.ex
+		ex.callSeq["math.Nextafter"]++
+		r := ex.vc.Declare(fmt.Sprintf("%snextafter!%d", f.prefix, ex.callSeq["math.Nextafter"]), SReal)
+		switch ex.callSeq["math.Inf is "+args[1].T.S] {
+		case 1:
+			ex.vc.Assume(ltT(args[0].T, r), "math.Nextafter(x, +Inf) > x (float64 as real numbers)")
+		case -1:
+			ex.vc.Assume(ltT(r, args[0].T), "math.Nextafter(x, -Inf) < x (float64 as real numbers)")
+		}
+		return []Val{{T: r}}
+	}
+
 	// strconv.Atoi: an uninterpreted partial function of the string.
 	externals["strconv.Atoi"] = func(f *Frame, ns *nodeState, x *ssa.Call, fn *ssa.Function, args []Val) []Val {
 		ex := f.ex
